@@ -10,12 +10,12 @@ import (
 )
 
 type LoopInfo struct {
-	Ordinal  int
-	Header   *ssa.BasicBlock
-	Blocks   map[*ssa.BasicBlock]bool
-	ModCells []*ssa.Alloc // cell allocs stored to inside the loop
-	HasMemWrite bool       // any store through memory pointer / impure call
-	ModFree  []*ssa.FreeVar
+	Ordinal     int
+	Header      *ssa.BasicBlock
+	Blocks      map[*ssa.BasicBlock]bool
+	ModCells    []*ssa.Alloc // cell allocs stored to inside the loop
+	HasMemWrite bool         // any store through memory pointer / impure call
+	ModFree     []*ssa.FreeVar
 }
 
 type FuncInfo struct {
@@ -118,7 +118,9 @@ func (e *Engine) info(fn *ssa.Function) *FuncInfo {
 				}
 			}
 		}
-		sort.Slice(li.ModCells, func(i, j int) bool { return li.ModCells[i].Pos() < li.ModCells[j].Pos() || (li.ModCells[i].Pos() == li.ModCells[j].Pos() && li.ModCells[i].Name() < li.ModCells[j].Name()) })
+		sort.Slice(li.ModCells, func(i, j int) bool {
+			return li.ModCells[i].Pos() < li.ModCells[j].Pos() || (li.ModCells[i].Pos() == li.ModCells[j].Pos() && li.ModCells[i].Name() < li.ModCells[j].Name())
+		})
 	}
 	fi.hasLoop = len(fi.loopList) > 0
 	return fi
